@@ -150,4 +150,13 @@ example :
     ∧ (runCI lower [("Me_1", 1)] [Op.lookup "me_1", Op.erase "ME_1"]) = ([.got (some 1), .done], []) := by
   decide +kernel
 
+/-- re-spelling a name is possible in both scopes; taking the spelling of ANOTHER entry is a clash only
+    in the folded one -/
+example :
+    runCI lower [("Me_1", 1), ("x", 2)] [Op.rename "Me_1" "me_1", Op.rename "x" "ME_1"]
+      = ([.done, .clash "ME_1"], [("me_1", 1), ("x", 2)])
+    ∧ runCS [("Me_1", 1), ("x", 2)] [Op.rename "Me_1" "me_1", Op.rename "x" "ME_1"]
+      = ([.done, .done], [("me_1", 1), ("ME_1", 2)]) := by
+  decide +kernel
+
 end VtlModel.C29
